@@ -341,7 +341,10 @@ impl World {
         for (id, b) in &ra.bands {
             if !before_ids.contains(id) {
                 new_band = Some(*id);
-                let st = if b.tail.present_nonempty() {
+                // A tail that exists at all (even the zero-length leftover of a killed write)
+                // makes the version complete for conserve; every hunk was written before it,
+                // so the version holds exactly the current source.
+                let st = if !b.tail.is_absent() {
                     BandState::Complete(self.tree.clone())
                 } else {
                     BandState::Incomplete
